@@ -13,7 +13,7 @@ use lattices::collections::{ArrayMap, ArraySet, OptionMap, OptionSet, SingletonM
 use lattices::map_union::MapUnion;
 use lattices::set_union::SetUnion;
 use lattices::{
-    Conflict, DomPair, IsBot, IsTop, Lattice, Max, Merge, Min, Pair, VecUnion, WithBot, WithTop,
+    Conflict, DomPair, IsBot, IsTop, Lattice, LatticeFrom, Max, Merge, Min, Pair, VecUnion, WithBot, WithTop,
 };
 
 type K = u16;
@@ -427,10 +427,39 @@ where
     })
 }
 
+/// Heterogeneous case {"k":"het","ty":NAME,"a":V,"b":V}: `a : S`, `b : O` (another
+/// representation of the same lattice).  Observes `Merge<O> for S`, `PartialOrd<O>`,
+/// `PartialEq<O>`, `LatticeFrom<O>` and the same operations after converting `b` to `S`.
+fn het<S, O>(case: &Value) -> Value
+where
+    S: Canon + Clone + Merge<O> + Merge<S> + PartialOrd<O> + PartialOrd<S> + PartialEq<O> + PartialEq<S> + LatticeFrom<O>,
+    O: Canon + Clone,
+{
+    let a = S::from_json(&case["a"]);
+    let b = O::from_json(&case["b"]);
+    let mut x = a.clone();
+    let ch = x.merge(b.clone());
+    let conv = S::lattice_from(b.clone());
+    let mut y = a.clone();
+    let ch2 = y.merge(conv.clone());
+    json!({
+        "ab": [x.to_json(), ch],
+        "cmp_ab": ord_json(a.partial_cmp(&b)),
+        "eq_ab": a == b,
+        "from_b": conv.to_json(),
+        // the same questions asked of the converted value
+        "hom_ab": [y.to_json(), ch2],
+        "hom_cmp_ab": ord_json(a.partial_cmp(&conv)),
+        "hom_eq_ab": a == conv,
+    })
+}
+
 type Runner = fn(&Value) -> Value;
 struct Registry {
     names: Vec<String>,
     triple: HashMap<String, Runner>,
+    het_names: Vec<String>,
+    het: HashMap<String, Runner>,
 }
 impl Registry {
     fn add<T>(&mut self, rust: &str)
@@ -443,9 +472,22 @@ impl Registry {
         self.names.push(n.clone());
         self.triple.insert(n, triple::<T>);
     }
+    fn add_het<S, O>(&mut self, rust: &str)
+    where
+        S: Canon + Clone + Merge<O> + Merge<S> + PartialOrd<O> + PartialOrd<S> + PartialEq<O> + PartialEq<S> + LatticeFrom<O>,
+        O: Canon + Clone,
+    {
+        // name = "<self code> <- <other code>@<rust pair>"
+        let n = format!("{} <- {}@{}", S::name(), O::name(), rust);
+        self.het_names.push(n.clone());
+        self.het.insert(n, het::<S, O>);
+    }
 }
 macro_rules! reg {
     ($r:expr; $($t:ty),* $(,)?) => { $( $r.add::<$t>(stringify!($t)); )* };
+}
+macro_rules! reg_het {
+    ($r:expr; $(($s:ty, $o:ty)),* $(,)?) => { $( $r.add_het::<$s, $o>(stringify!(($s, $o))); )* };
 }
 
 type SH = SetUnion<HashSet<K>>;
@@ -453,8 +495,29 @@ type SB = SetUnion<BTreeSet<K>>;
 type MH<V> = MapUnion<HashMap<K, V>>;
 type MB<V> = MapUnion<BTreeMap<K, V>>;
 
+type SS = SetUnion<SingletonSet<K>>;
+type SO = SetUnion<OptionSet<K>>;
+type SA2 = SetUnion<ArraySet<K, 2>>;
+type SA3 = SetUnion<ArraySet<K, 3>>;
+type MS<V> = MapUnion<SingletonMap<K, V>>;
+type MO<V> = MapUnion<OptionMap<K, V>>;
+type MVec<V> = MapUnion<VecMap<K, V>>;
+type MA2<V> = MapUnion<ArrayMap<K, V, 2>>;
+
 fn registry() -> Registry {
-    let mut r = Registry { names: vec![], triple: HashMap::new() };
+    let mut r = Registry { names: vec![], triple: HashMap::new(), het_names: vec![], het: HashMap::new() };
+    reg_het!(r;
+        (SH, SB), (SB, SH), (SH, SS), (SH, SO), (SH, SA2), (SB, SA3), (SB, SS),
+        (MH<Max<u8>>, MB<Max<u8>>), (MB<Max<u8>>, MH<Max<u8>>), (MH<Max<u8>>, MS<Max<u8>>),
+        (MH<Max<u8>>, MO<Max<u8>>), (MH<Max<u8>>, MVec<Max<u8>>), (MB<Max<u8>>, MA2<Max<u8>>),
+        (MH<SH>, MS<SS>), (MH<SH>, MB<SB>), (MH<SB>, MVec<SA2>), (MH<MH<SH>>, MS<MS<SS>>),
+        (MH<WithBot<SH>>, MO<WithBot<SS>>),
+        (WithBot<SH>, WithBot<SB>), (WithBot<SH>, WithBot<SS>), (WithTop<SH>, WithTop<SO>),
+        (WithBot<MH<SH>>, WithBot<MS<SS>>),
+        (Pair<SH, MH<Max<u8>>>, Pair<SB, MB<Max<u8>>>), (Pair<SH, SB>, Pair<SS, SA2>),
+        (VecUnion<SH>, VecUnion<SB>), (VecUnion<MH<SH>>, VecUnion<MS<SS>>),
+        (DomPair<Max<u8>, SH>, DomPair<Max<u8>, SS>), (DomPair<Max<u64>, MH<SH>>, DomPair<Max<u64>, MB<SB>>),
+    );
     reg!(r;
         (), Max<u8>, Max<u64>, Max<bool>, Min<u8>, Min<u64>, Min<bool>, Conflict<K>,
         SH, SB,
@@ -484,6 +547,14 @@ fn run(case: &Value) -> Value {
     thread_local! { static REG: Registry = registry(); }
     REG.with(|r| match case["k"].as_str().unwrap_or("") {
         "types" => json!(r.names),
+        "het_types" => json!(r.het_names),
+        "het" => {
+            let ty = case["ty"].as_str().unwrap();
+            match r.het.get(ty) {
+                Some(f) => guarded(|| f(case)),
+                None => json!({ "unknown_type": ty }),
+            }
+        }
         "triple" => {
             let ty = case["ty"].as_str().unwrap();
             match r.triple.get(ty) {
